@@ -20,21 +20,53 @@ out and a negation witness next to them:
 namespace ZChain.BlockGen
 open ZChain.Ledger
 
-variable (cfg : Cfg) (prior : St) (pool : List PTxn) (bi : Builtins) (waitOver : Bool) (fuel : Nat) (g : GS)
+variable (cfg : Cfg) (now prevDate : Int) (prior : St) (pool : List PTxn) (bi : Builtins) (waitOver : Bool) (fuel : Nat) (g : GS)
 
 /-- **generated_block_verifies** (state part, unconditional): re-executing the block's transactions in block order
 from the same prior state — what `Block.ComputeState` does on the verifying node — applies every one of them (none is
 rejected) and reproduces the generator's state after EVERY transaction (`g.trace`, recorded by the generator as it
 went), hence the same final state, and the same status for every transaction. -/
-theorem generated_block_verifies (h : generate cfg prior pool bi waitOver fuel = .ok g) :
-    reexec cfg.feeOn prior (blockOf g).txns =
-      some ((blockOf g).final, (blockOf g).txns.map (·.status), g.trace) :=
-  (generate_spec cfg prior pool bi waitOver fuel g h).reex
+theorem generated_block_verifies (h : generate cfg now prevDate prior pool bi waitOver fuel = .ok g) :
+    reexec cfg.feeOn prior (blockOf (blockDate now prevDate) g).txns =
+      some ((blockOf (blockDate now prevDate) g).final, (blockOf (blockDate now prevDate) g).txns.map (·.status), g.trace) :=
+  (generate_spec cfg (blockDate now prevDate) prior pool bi waitOver fuel g h).reex
+
+/-- the block's transactions taken from the pool. -/
+def fromPool (e : Entry) : Prop := ∃ n, e.key = Key.pool n
+
+/-- **time_tolerance_agrees**: every pool transaction of a generated block is within the time tolerance OF THE BLOCK'S
+creation date — the date the verifier measures against (`ValidateWrtTimeForBlock(ctx, b.CreationDate, …)`), which is
+`max(generator's clock, previous block's date)` and in general NOT the generator's clock. A generator that tested
+against its own clock instead would put transactions into the block that the verifier must refuse. -/
+theorem time_tolerance_agrees (h : generate cfg now prevDate prior pool bi waitOver fuel = .ok g) :
+    ∀ e ∈ (blockOf (blockDate now prevDate) g).txns, fromPool e →
+      lateAt cfg.tol (blockOf (blockDate now prevDate) g).date e.p = false := by
+  obtain ⟨_, ⟨gp, ents, hi, he, hs, _⟩, _⟩ := generate_spec cfg (blockDate now prevDate) prior pool bi waitOver fuel g h
+  intro e hm ⟨n, hn⟩
+  change e ∈ g.incl at hm
+  rw [he, List.mem_append] at hm
+  rcases hm with hm | hm
+  · exact (hi.good e hm).1
+  · obtain ⟨b', _, hk, _⟩ := Sub_mem hs e hm
+    rw [hk] at hn; cases hn
+
+/-- the generator's own transactions carry the block's date. -/
+theorem builtin_dated_as_block (h : generate cfg now prevDate prior pool bi waitOver fuel = .ok g) :
+    ∀ e ∈ (blockOf (blockDate now prevDate) g).txns, (∃ k, e.key = Key.builtin k) →
+      e.p.created = (blockOf (blockDate now prevDate) g).date := by
+  obtain ⟨_, ⟨gp, ents, hi, he, hs, _⟩, _⟩ := generate_spec cfg (blockDate now prevDate) prior pool bi waitOver fuel g h
+  intro e hm ⟨k, hk⟩
+  change e ∈ g.incl at hm
+  rw [he, List.mem_append] at hm
+  rcases hm with hm | hm
+  · rw [hi.keys e hm] at hk; cases hk
+  · obtain ⟨b', _, _, _, hcr, _⟩ := Sub_mem hs e hm
+    exact hcr
 
 /-- **no_duplicate_txn**: no transaction (pool hash or built-in kind) occurs twice in a generated block. -/
-theorem no_duplicate_txn (h : generate cfg prior pool bi waitOver fuel = .ok g) :
-    ((blockOf g).txns.map (·.key)).Nodup := by
-  obtain ⟨_, ⟨gp, ents, hi, he, hs, _⟩, _⟩ := generate_spec cfg prior pool bi waitOver fuel g h
+theorem no_duplicate_txn (h : generate cfg now prevDate prior pool bi waitOver fuel = .ok g) :
+    ((blockOf (blockDate now prevDate) g).txns.map (·.key)).Nodup := by
+  obtain ⟨_, ⟨gp, ents, hi, he, hs, _⟩, _⟩ := generate_spec cfg (blockDate now prevDate) prior pool bi waitOver fuel g h
   show (g.incl.map (·.key)).Nodup
   rw [he, List.map_append, List.nodup_append]
   refine ⟨hi.nodup, Sub_keys_nodup hs (list_kinds_nodup bi), ?_⟩
@@ -47,10 +79,10 @@ theorem no_duplicate_txn (h : generate cfg prior pool bi waitOver fuel = .ok g) 
   intro hc; cases hc
 
 /-- **builtin_at_most_once** (the generator's own transactions): each kind occurs at most once. -/
-theorem builtin_at_most_once (h : generate cfg prior pool bi waitOver fuel = .ok g) (k : BuiltinKind) :
-    ((blockOf g).txns.filter (fun e => e.key = Key.builtin k)).length ≤ 1 := by
-  have hn := no_duplicate_txn cfg prior pool bi waitOver fuel g h
-  generalize (blockOf g).txns = l at hn
+theorem builtin_at_most_once (h : generate cfg now prevDate prior pool bi waitOver fuel = .ok g) (k : BuiltinKind) :
+    ((blockOf (blockDate now prevDate) g).txns.filter (fun e => e.key = Key.builtin k)).length ≤ 1 := by
+  have hn := no_duplicate_txn cfg now prevDate prior pool bi waitOver fuel g h
+  generalize (blockOf (blockDate now prevDate) g).txns = l at hn
   induction l with
   | nil => simp
   | cons x xs ih =>
@@ -101,24 +133,21 @@ theorem applied_eq_noncesOf (feeOn : Bool) (i : Id) : ∀ (l : List Entry) (s : 
 /-- **nonces_consecutive_per_sender** (via C03 `nonce_history`): in a generated block the transactions of every sender
 `i` — pool transactions and, for the generator's own wallet, the built-in ones — carry the nonces
 `n₀+1, n₀+2, …` in block order, `n₀` being the sender's nonce in the prior state; no gap, no repeat. -/
-theorem nonces_consecutive_per_sender (h : generate cfg prior pool bi waitOver fuel = .ok g) (i : Id) :
-    noncesOf (blockOf g).txns i = seqFrom (get prior.accts i).nonce (noncesOf (blockOf g).txns i).length := by
-  have hr := generated_block_verifies cfg prior pool bi waitOver fuel g h
+theorem nonces_consecutive_per_sender (h : generate cfg now prevDate prior pool bi waitOver fuel = .ok g) (i : Id) :
+    noncesOf (blockOf (blockDate now prevDate) g).txns i = seqFrom (get prior.accts i).nonce (noncesOf (blockOf (blockDate now prevDate) g).txns i).length := by
+  have hr := generated_block_verifies cfg now prevDate prior pool bi waitOver fuel g h
   have ha := applied_eq_noncesOf cfg.feeOn i _ _ _ hr
-  have hh := (nonce_history cfg.feeOn (histOf cfg.feeOn prior (blockOf g).txns) prior i).1
+  have hh := (nonce_history cfg.feeOn (histOf cfg.feeOn prior (blockOf (blockDate now prevDate) g).txns) prior i).1
   rw [ha] at hh
   exact hh
-
-/-- the block's transactions taken from the pool. -/
-def fromPool (e : Entry) : Prop := ∃ n, e.key = Key.pool n
 
 /-- **builtin_at_most_once_partial** (by NAME, which is what the verifier's `isBuildInTxn` looks at). Full statement —
 "no built-in name occurs twice in a generated block" — is false (`pool_builtin_name_in_block`); it holds when no pool
 transaction of the block carries a built-in name. -/
-theorem builtin_names_at_most_once_partial (h : generate cfg prior pool bi waitOver fuel = .ok g)
-    (hname : ∀ e ∈ (blockOf g).txns, fromPool e → e.p.bname = none) :
-    ((blockOf g).txns.filterMap (fun e => e.p.bname)).Nodup := by
-  obtain ⟨_, ⟨gp, ents, hi, he, hs, _⟩, _⟩ := generate_spec cfg prior pool bi waitOver fuel g h
+theorem builtin_names_at_most_once_partial (h : generate cfg now prevDate prior pool bi waitOver fuel = .ok g)
+    (hname : ∀ e ∈ (blockOf (blockDate now prevDate) g).txns, fromPool e → e.p.bname = none) :
+    ((blockOf (blockDate now prevDate) g).txns.filterMap (fun e => e.p.bname)).Nodup := by
+  obtain ⟨_, ⟨gp, ents, hi, he, hs, _⟩, _⟩ := generate_spec cfg (blockDate now prevDate) prior pool bi waitOver fuel g h
   change ∀ e ∈ g.incl, fromPool e → e.p.bname = none at hname
   show (g.incl.filterMap (fun e => e.p.bname)).Nodup
   rw [he, List.filterMap_append]
@@ -127,7 +156,7 @@ theorem builtin_names_at_most_once_partial (h : generate cfg prior pool bi waitO
     intro e hm
     exact hname e (by rw [he]; exact List.mem_append_left _ hm) ⟨_, hi.keys e hm⟩
   rw [hnil, List.nil_append]
-  exact Sub_names_nodup hs (list_kinds_nodup bi) (fun b hb => (list_props bi b hb).1)
+  exact Sub_names_nodup hs (list_kinds_nodup bi) (fun b hb => list_props bi b hb)
 
 theorem costSum_nonneg (l : List Entry) (hl : ∀ e ∈ l, small e) : 0 ≤ costSum l := by
   induction l with
@@ -138,13 +167,13 @@ theorem costSum_nonneg (l : List Entry) (hl : ∀ e ∈ l, small e) : 0 ≤ cost
     simp only [costSum, hcx, Option.getD_some]; omega
 
 /-- the exact (unbounded-integer) cost bound behind `cost_below_limit_partial` and the verifier's cost test. -/
-theorem cost_bound (h : generate cfg prior pool bi waitOver fuel = .ok g)
+theorem cost_bound (h : generate cfg now prevDate prior pool bi waitOver fuel = .ok g)
     (hmax : cfg.maxBlockCost < two62)
-    (hsmall : ∀ e ∈ (blockOf g).txns, fromPool e → small e)
+    (hsmall : ∀ e ∈ (blockOf (blockDate now prevDate) g).txns, fromPool e → small e)
     (hb0 : ∀ b ∈ bi.list, 0 ≤ b.2.cost.getD 0) (hbs : bsum bi.list ≤ cfg.maxBlockCost) :
-    0 ≤ costSum (blockOf g).txns ∧ costSum (blockOf g).txns ≤ cfg.maxBlockCost ∧
-    ((∃ e ∈ (blockOf g).txns, fromPool e) → costSum (blockOf g).txns < cfg.maxBlockCost) := by
-  obtain ⟨_, ⟨gp, ents, hi, he, hs, _⟩, _⟩ := generate_spec cfg prior pool bi waitOver fuel g h
+    0 ≤ costSum (blockOf (blockDate now prevDate) g).txns ∧ costSum (blockOf (blockDate now prevDate) g).txns ≤ cfg.maxBlockCost ∧
+    ((∃ e ∈ (blockOf (blockDate now prevDate) g).txns, fromPool e) → costSum (blockOf (blockDate now prevDate) g).txns < cfg.maxBlockCost) := by
+  obtain ⟨_, ⟨gp, ents, hi, he, hs, _⟩, _⟩ := generate_spec cfg (blockDate now prevDate) prior pool bi waitOver fuel g h
   change ∀ e ∈ g.incl, fromPool e → small e at hsmall
   show 0 ≤ costSum g.incl ∧ costSum g.incl ≤ cfg.maxBlockCost ∧ ((∃ e ∈ g.incl, fromPool e) → costSum g.incl < cfg.maxBlockCost)
   have hgs : ∀ e ∈ gp.incl, small e := fun e hm => hsmall e (by rw [he]; exact List.mem_append_left _ hm) ⟨_, hi.keys e hm⟩
@@ -183,59 +212,61 @@ theorem cost_bound (h : generate cfg prior pool bi waitOver fuel = .ok g)
 are moderate non-negative numbers (in particular none is the `MaxInt` of an unknown function) and the built-in
 transactions of the round alone do not exceed the limit (a configuration matter): then the sum is `< limit` as soon
 as one pool transaction is in the block, and `≤ limit` for a block of built-in transactions only. -/
-theorem cost_below_limit_partial (h : generate cfg prior pool bi waitOver fuel = .ok g)
+theorem cost_below_limit_partial (h : generate cfg now prevDate prior pool bi waitOver fuel = .ok g)
     (hmax : cfg.maxBlockCost < two62)
-    (hsmall : ∀ e ∈ (blockOf g).txns, fromPool e → small e)
+    (hsmall : ∀ e ∈ (blockOf (blockDate now prevDate) g).txns, fromPool e → small e)
     (hb0 : ∀ b ∈ bi.list, 0 ≤ b.2.cost.getD 0) (hbs : bsum bi.list ≤ cfg.maxBlockCost) :
-    costSum (blockOf g).txns ≤ cfg.maxBlockCost ∧
-    ((∃ e ∈ (blockOf g).txns, fromPool e) → costSum (blockOf g).txns < cfg.maxBlockCost) :=
-  (cost_bound cfg prior pool bi waitOver fuel g h hmax hsmall hb0 hbs).2
+    costSum (blockOf (blockDate now prevDate) g).txns ≤ cfg.maxBlockCost ∧
+    ((∃ e ∈ (blockOf (blockDate now prevDate) g).txns, fromPool e) → costSum (blockOf (blockDate now prevDate) g).txns < cfg.maxBlockCost) :=
+  (cost_bound cfg now prevDate prior pool bi waitOver fuel g h hmax hsmall hb0 hbs).2
 
 /-- **generated_block_verifies_partial** (the whole `VerifyBlock` pipeline of the model: duplicate test, time
 tolerance, duplicated built-in names, cost test, re-execution, state and status comparison). Full statement — "every
 generated block verifies" — is false (`pool_builtin_name_fails_verification`, `maxint_estimate_fails_verification`).
 It holds under the two hypotheses the negation witnesses violate: no included pool transaction carries a built-in
 name, and the cost estimates are moderate (see `cost_below_limit_partial`). -/
-theorem generated_block_verifies_partial (h : generate cfg prior pool bi waitOver fuel = .ok g)
-    (hname : ∀ e ∈ (blockOf g).txns, fromPool e → e.p.bname = none)
+theorem generated_block_verifies_partial (h : generate cfg now prevDate prior pool bi waitOver fuel = .ok g)
+    (htol : 0 ≤ cfg.tol)
+    (hname : ∀ e ∈ (blockOf (blockDate now prevDate) g).txns, fromPool e → e.p.bname = none)
     (hmax : cfg.maxBlockCost < two62)
-    (hsmall : ∀ e ∈ (blockOf g).txns, fromPool e → small e)
+    (hsmall : ∀ e ∈ (blockOf (blockDate now prevDate) g).txns, fromPool e → small e)
     (hb0 : ∀ b ∈ bi.list, 0 ≤ b.2.cost.getD 0) (hbs : bsum bi.list ≤ cfg.maxBlockCost) :
-    verify cfg prior (blockOf g) = .ok () := by
-  have hdup := no_duplicate_txn cfg prior pool bi waitOver fuel g h
-  have hnames := builtin_names_at_most_once_partial cfg prior pool bi waitOver fuel g h hname
-  have hre := generated_block_verifies cfg prior pool bi waitOver fuel g h
-  obtain ⟨hc0, hc1, _⟩ := cost_bound cfg prior pool bi waitOver fuel g h hmax hsmall hb0 hbs
-  obtain ⟨_, ⟨gp, ents, hi, he, hs, _⟩, hbc⟩ := generate_spec cfg prior pool bi waitOver fuel g h
-  have hgood : ∀ e ∈ (blockOf g).txns, e.p.late = false ∧ e.p.cost.isSome := by
+    verify cfg prior (blockOf (blockDate now prevDate) g) = .ok () := by
+  have hdup := no_duplicate_txn cfg now prevDate prior pool bi waitOver fuel g h
+  have hnames := builtin_names_at_most_once_partial cfg now prevDate prior pool bi waitOver fuel g h hname
+  have hre := generated_block_verifies cfg now prevDate prior pool bi waitOver fuel g h
+  obtain ⟨hc0, hc1, _⟩ := cost_bound cfg now prevDate prior pool bi waitOver fuel g h hmax hsmall hb0 hbs
+  obtain ⟨_, ⟨gp, ents, hi, he, hs, _⟩, hbc⟩ := generate_spec cfg (blockDate now prevDate) prior pool bi waitOver fuel g h
+  have hgood : ∀ e ∈ (blockOf (blockDate now prevDate) g).txns, lateAt cfg.tol (blockDate now prevDate) e.p = false ∧ e.p.cost.isSome := by
     intro e hm
     change e ∈ g.incl at hm
     rw [he, List.mem_append] at hm
     rcases hm with hm | hm
     · exact hi.good e hm
-    · obtain ⟨b', hb', _, hcst, hlate, _⟩ := Sub_mem hs e hm
-      exact ⟨by rw [hlate]; exact (list_props bi b' hb').2, by rw [hcst]; exact hbc b' hb'⟩
-  have hlate : (blockOf g).txns.any (fun e => e.p.late) = false := by
+    · obtain ⟨b', hb', _, hcst, hcr, _⟩ := Sub_mem hs e hm
+      exact ⟨by simp only [lateAt, within, hcr, Bool.not_eq_false', Bool.and_eq_true, decide_eq_true_eq]; omega,
+        by rw [hcst]; exact hbc b' hb'⟩
+  have hlate : (blockOf (blockDate now prevDate) g).txns.any (fun e => lateAt cfg.tol (blockOf (blockDate now prevDate) g).date e.p) = false := by
     rw [List.any_eq_false]
-    intro e hm; simp [(hgood e hm).1]
-  have hcost := blockCost_eq (blockOf g).txns (fun e hm => (hgood e hm).2)
+    intro e hm; have := (hgood e hm).1; simpa [blockOf] using this
+  have hcost := blockCost_eq (blockOf (blockDate now prevDate) g).txns (fun e hm => (hgood e hm).2)
   unfold verify
   rw [hasDup_false_of_nodup _ hdup, hlate, hasDup_false_of_nodup _ hnames, hcost, hre]
-  have hw : wrap64 (costSum (blockOf g).txns) = costSum (blockOf g).txns := by
+  have hw : wrap64 (costSum (blockOf (blockDate now prevDate) g).txns) = costSum (blockOf (blockDate now prevDate) g).txns := by
     rw [wrap64_id] <;> (unfold two62 at hmax; omega)
-  have hng : ¬ (wrap64 (costSum (blockOf g).txns) > cfg.maxBlockCost) := by rw [hw]; omega
+  have hng : ¬ (wrap64 (costSum (blockOf (blockDate now prevDate) g).txns) > cfg.maxBlockCost) := by rw [hw]; omega
   simp [hng]
 
 /-- **classify_sound**: `validateTransaction` answers "current" exactly when the transaction is inside the time
 tolerance and carries the nonce the engine's test demands (`state nonce + 1`). (The nonce difference is computed in
 int64 by the code; the range hypotheses — state nonces below 2^62, the transaction's nonce an int64 not below −2^62 —
 exclude the wrap-around.) -/
-theorem classify_sound (s : St) (p : PTxn)
+theorem classify_sound (tol date : Int) (s : St) (p : PTxn)
     (hn0 : 0 ≤ (get s.accts p.txn.sender).nonce) (hn1 : (get s.accts p.txn.sender).nonce < two62)
     (ht0 : -two62 ≤ p.txn.nonce) (ht1 : p.txn.nonce < two63) :
-    (classify s p).1 = Cls.current ↔ p.late = false ∧ (get s.accts p.txn.sender).nonce + 1 = p.txn.nonce := by
+    (classify tol date s p).1 = Cls.current ↔ lateAt tol date p = false ∧ (get s.accts p.txn.sender).nonce + 1 = p.txn.nonce := by
   unfold classify
-  cases hl : p.late
+  cases hl : lateAt tol date p
   · simp only [Bool.false_eq_true, if_false, true_and]
     by_cases hp : present s.accts p.txn.sender = true
     · simp only [hp, Bool.not_true, Bool.false_eq_true, if_false]
@@ -271,42 +302,54 @@ theorem classify_sound (s : St) (p : PTxn)
 
 /-- the engine agrees: a transaction classified "current" passes the engine's nonce test, any other is rejected by
 `step` whatever else holds (C03 `wrong_nonce_rejected`). -/
-theorem not_current_rejected (feeOn : Bool) (s : St) (p : PTxn) (r : CResult)
+theorem not_current_rejected (feeOn : Bool) (tol date : Int) (s : St) (p : PTxn) (r : CResult)
     (hn0 : 0 ≤ (get s.accts p.txn.sender).nonce) (hn1 : (get s.accts p.txn.sender).nonce < two62)
     (ht0 : -two62 ≤ p.txn.nonce) (ht1 : p.txn.nonce < two63)
-    (hl : p.late = false) (hc : (classify s p).1 ≠ Cls.current) :
+    (hl : lateAt tol date p = false) (hc : (classify tol date s p).1 ≠ Cls.current) :
     step feeOn s p.txn r = (s, Status.rejected) := by
   apply wrong_nonce_rejected
   intro he
-  exact hc ((classify_sound s p hn0 hn1 ht0 ht1).mpr ⟨hl, he.symm⟩)
+  exact hc ((classify_sound tol date s p hn0 hn1 ht0 ht1).mpr ⟨hl, he.symm⟩)
 
 /-! ## negation witnesses and non-vacuity (concrete pools, evaluated by the kernel) -/
 
-def exCfg (fee : Bool) (maxCost : Int) : Cfg := ⟨fee, maxCost, 1638400, 1, 0, 3⟩
+def exCfg (fee : Bool) (maxCost : Int) : Cfg := ⟨fee, maxCost, 1638400, 1, 0, 3, 600⟩
 def exPrior : St := { accts := [(3, ⟨5000000000000, 0⟩), (5, ⟨5000000000000, 0⟩), (6, ⟨5000000000000, 3⟩)], store := [] }
 def exTxn (key : Nat) (typ : TxnType) (sender : Id) (fee : Nat) (nonce : Int) (cost : Int) (bn : Option BuiltinKind) : PTxn :=
   { key := key, txn := { sender := sender, to := 6, toValid := true, value := 0, fee := fee, nonce := nonce, typ := typ },
     res := fun _ => CResult.ok [] [] [], outLen := fun _ => 4, cost := some cost, estFee := 0, exempt := false, bytes := 50,
-    late := false, bname := bn }
+    created := 0, bname := bn }
 def exPayFees (res : CResult) : Builtins :=
   ⟨some { (exTxn 0 .sc 3 0 0 100 none) with res := fun _ => res }, none, none, none⟩
 def maxInt : Int := 9223372036854775807
 
 def keysOf (r : Except GenErr GS) : List Key := match r with | .ok g => g.incl.map (·.key) | .error _ => []
 /-- `none` = no block; `some none` = the block verifies; `some (some e)` = the verifier's error. -/
-def verdict (cfg : Cfg) (s : St) (r : Except GenErr GS) : Option (Option VErr) :=
+def verdict (cfg : Cfg) (date : Int) (s : St) (r : Except GenErr GS) : Option (Option VErr) :=
   match r with
-  | .ok g => some (match verify cfg s (blockOf g) with | .ok _ => none | .error e => some e)
+  | .ok g => some (match verify cfg s (blockOf date g) with | .ok _ => none | .error e => some e)
   | .error _ => none
 def exactCost (r : Except GenErr GS) : Int := match r with | .ok g => costSum g.incl | .error _ => 0
 
 /-- non-vacuity: nonces 1, 3, 2 of one sender in this pool order — 3 waits in the future list and is promoted when 2
 is in; the fee transaction closes the block; the block verifies. -/
 def exPool1 : List PTxn := [exTxn 0 .data 5 0 1 10 none, exTxn 1 .data 5 0 3 10 none, exTxn 2 .sc 5 0 2 10 none]
-example : keysOf (generate (exCfg true 10000) exPrior exPool1 (exPayFees (.ok [] [] [])) true 20) =
+example : keysOf (generate (exCfg true 10000) 0 0 exPrior exPool1 (exPayFees (.ok [] [] [])) true 20) =
     [Key.pool 0, Key.pool 2, Key.pool 1, Key.builtin .payFees] := by decide
-example : verdict (exCfg true 10000) exPrior (generate (exCfg true 10000) exPrior exPool1 (exPayFees (.ok [] [] [])) true 20) =
+example : verdict (exCfg true 10000) 0 exPrior (generate (exCfg true 10000) 0 0 exPrior exPool1 (exPayFees (.ok [] [] [])) true 20) =
     some none := by decide
+
+/-- clock skew: the previous block is dated 300 s ahead of the generator's clock (`now = 0`), so the new block is dated
+300 and the tolerance window is [−300, 900]. A transaction created at −301 is inside the window of the generator's own
+clock ([−600, 600]) but outside the block's: it stays out; the one created at −300 goes in; the block verifies. -/
+def exAt (key : Nat) (sender : Id) (nonce : Int) (created : Int) : PTxn := { (exTxn key .data sender 0 nonce 10 none) with created := created }
+example : keysOf (generate (exCfg false 10000) 0 300 exPrior [exAt 0 5 1 (-301), exAt 1 6 4 (-300), exAt 2 3 1 900, exAt 3 3 2 901]
+    ⟨none, none, none, none⟩ true 20) = [Key.pool 1, Key.pool 2] := by decide
+example : verdict (exCfg false 10000) 300 exPrior (generate (exCfg false 10000) 0 300 exPrior
+    [exAt 0 5 1 (-301), exAt 1 6 4 (-300), exAt 2 3 1 900, exAt 3 3 2 901] ⟨none, none, none, none⟩ true 20) = some none := by decide
+/-- what the verifier says to a block that holds the −301 transaction (as a wall-clock generator would build it). -/
+example : (match verify (exCfg false 10000) exPrior ⟨300, [⟨Key.pool 0, exAt 0 5 1 (-301), .success⟩], exPrior⟩ with
+    | .ok _ => none | .error e => some e) = some VErr.txn := by decide
 
 /-- the hypotheses of the `_partial` theorems as a computable test (for the non-vacuity example below). -/
 def hypsHold (cfg : Cfg) (bi : Builtins) (r : Except GenErr GS) : Bool :=
@@ -315,15 +358,15 @@ def hypsHold (cfg : Cfg) (bi : Builtins) (r : Except GenErr GS) : Bool :=
     g.incl.all (fun e => match e.key with
       | .pool _ => e.p.bname.isNone && (match e.p.cost with | some c => decide (0 ≤ c) && decide (c < two62) | none => false)
       | .builtin _ => true)
-    && decide (cfg.maxBlockCost < two62) && bi.list.all (fun b => decide (0 ≤ b.2.cost.getD 0)) && decide (bsum bi.list ≤ cfg.maxBlockCost)
+    && decide (0 ≤ cfg.tol) && decide (cfg.maxBlockCost < two62) && bi.list.all (fun b => decide (0 ≤ b.2.cost.getD 0)) && decide (bsum bi.list ≤ cfg.maxBlockCost)
   | .error _ => false
 
-theorem hypsHold_sound (cfg : Cfg) (bi : Builtins) (g : GS) (h : hypsHold cfg bi (.ok g) = true) :
-    (∀ e ∈ (blockOf g).txns, fromPool e → e.p.bname = none) ∧ cfg.maxBlockCost < two62 ∧
-    (∀ e ∈ (blockOf g).txns, fromPool e → small e) ∧ (∀ b ∈ bi.list, 0 ≤ b.2.cost.getD 0) ∧ bsum bi.list ≤ cfg.maxBlockCost := by
+theorem hypsHold_sound (cfg : Cfg) (date : Int) (bi : Builtins) (g : GS) (h : hypsHold cfg bi (.ok g) = true) :
+    0 ≤ cfg.tol ∧ (∀ e ∈ (blockOf date g).txns, fromPool e → e.p.bname = none) ∧ cfg.maxBlockCost < two62 ∧
+    (∀ e ∈ (blockOf date g).txns, fromPool e → small e) ∧ (∀ b ∈ bi.list, 0 ≤ b.2.cost.getD 0) ∧ bsum bi.list ≤ cfg.maxBlockCost := by
   simp only [hypsHold, Bool.and_eq_true, List.all_eq_true, decide_eq_true_eq] at h
-  obtain ⟨⟨⟨h1, h2⟩, h3⟩, h4⟩ := h
-  refine ⟨?_, h2, ?_, h3, h4⟩
+  obtain ⟨⟨⟨⟨h1, h0⟩, h2⟩, h3⟩, h4⟩ := h
+  refine ⟨h0, ?_, h2, ?_, h3, h4⟩
   · intro e he ⟨n, hn⟩
     have := h1 e he
     rw [hn] at this
@@ -342,17 +385,17 @@ theorem hypsHold_sound (cfg : Cfg) (bi : Builtins) (g : GS) (h : hypsHold cfg bi
 /-- non-vacuity of `generated_block_verifies_partial` / `cost_below_limit_partial` / `builtin_names_at_most_once_partial`:
 the block generated from `exPool1` meets all their hypotheses. -/
 example : hypsHold (exCfg true 10000) (exPayFees (.ok [] [] []))
-    (generate (exCfg true 10000) exPrior exPool1 (exPayFees (.ok [] [] [])) true 20) = true := by decide
+    (generate (exCfg true 10000) 0 0 exPrior exPool1 (exPayFees (.ok [] [] [])) true 20) = true := by decide
 
 /-- NEGATION WITNESS (finding `C45:pool-transaction-with-builtin-name-fails-verification`): client 6 submits a contract
 call whose function is merely NAMED `payFees`. The honest generator includes it and appends its own fee transaction;
 the honest verifier rejects the block. -/
 def exPool2 : List PTxn := [exTxn 0 .data 5 0 1 10 none, exTxn 1 .sc 6 0 4 100 (some .payFees)]
 theorem pool_builtin_name_in_block :
-    keysOf (generate (exCfg true 10000) exPrior exPool2 (exPayFees (.ok [] [] [])) true 20) =
+    keysOf (generate (exCfg true 10000) 0 0 exPrior exPool2 (exPayFees (.ok [] [] [])) true 20) =
       [Key.pool 0, Key.pool 1, Key.builtin .payFees] := by decide
 theorem pool_builtin_name_fails_verification :
-    verdict (exCfg true 10000) exPrior (generate (exCfg true 10000) exPrior exPool2 (exPayFees (.ok [] [] [])) true 20) =
+    verdict (exCfg true 10000) 0 exPrior (generate (exCfg true 10000) 0 0 exPrior exPool2 (exPayFees (.ok [] [] [])) true 20) =
       some (some .txn) := by decide
 
 /-- NEGATION WITNESS (finding `C45:cost-limit-bypassed-by-maxint-estimate`): the first transaction calls a function
@@ -360,21 +403,21 @@ without a cost entry (estimate `MaxInt`); 100 + MaxInt wraps negative, it is inc
 6000 each follow although the limit is 10000. The verifier's sum wraps the same way and the block verifies. -/
 def exPool3 : List PTxn := [exTxn 0 .sc 6 0 4 maxInt none, exTxn 1 .sc 6 0 5 6000 none, exTxn 2 .sc 6 0 6 6000 none, exTxn 3 .sc 6 0 7 6000 none]
 theorem cost_limit_bypassed :
-    keysOf (generate (exCfg true 10000) exPrior exPool3 (exPayFees (.ok [] [] [])) true 20) =
+    keysOf (generate (exCfg true 10000) 0 0 exPrior exPool3 (exPayFees (.ok [] [] [])) true 20) =
       [Key.pool 0, Key.pool 1, Key.pool 2, Key.pool 3, Key.builtin .payFees] ∧
-    exactCost (generate (exCfg true 10000) exPrior exPool3 (exPayFees (.ok [] [] [])) true 20) = maxInt + 18100 ∧
-    verdict (exCfg true 10000) exPrior (generate (exCfg true 10000) exPrior exPool3 (exPayFees (.ok [] [] [])) true 20) =
+    exactCost (generate (exCfg true 10000) 0 0 exPrior exPool3 (exPayFees (.ok [] [] [])) true 20) = maxInt + 18100 ∧
+    verdict (exCfg true 10000) 0 exPrior (generate (exCfg true 10000) 0 0 exPrior exPool3 (exPayFees (.ok [] [] [])) true 20) =
       some none := by decide
 
 /-- NEGATION WITNESS (same root cause): the fee transaction (cost 100) fails to execute and stays out of the block, the
 `MaxInt` transaction got in behind it; the verifier sums only the block and answers `ErrCostTooBig`. -/
 theorem maxint_estimate_fails_verification :
-    keysOf (generate (exCfg true 10000) exPrior [exTxn 0 .sc 6 0 4 maxInt none] (exPayFees .internal) true 20) = [Key.pool 0] ∧
-    verdict (exCfg true 10000) exPrior (generate (exCfg true 10000) exPrior [exTxn 0 .sc 6 0 4 maxInt none] (exPayFees .internal) true 20) =
+    keysOf (generate (exCfg true 10000) 0 0 exPrior [exTxn 0 .sc 6 0 4 maxInt none] (exPayFees .internal) true 20) = [Key.pool 0] ∧
+    verdict (exCfg true 10000) 0 exPrior (generate (exCfg true 10000) 0 0 exPrior [exTxn 0 .sc 6 0 4 maxInt none] (exPayFees .internal) true 20) =
       some (some .costTooBig) := by decide
 
 /-- without a running cost the same transaction is simply over the limit and skipped. -/
-example : keysOf (generate (exCfg false 10000) exPrior [exTxn 0 .sc 5 0 1 maxInt none, exTxn 1 .sc 6 0 4 6000 none]
+example : keysOf (generate (exCfg false 10000) 0 0 exPrior [exTxn 0 .sc 5 0 1 maxInt none, exTxn 1 .sc 6 0 4 6000 none]
     ⟨none, none, none, none⟩ true 20) = [Key.pool 1] := by decide
 
 end ZChain.BlockGen
